@@ -1,4 +1,5 @@
 #!/bin/bash
-# usage: tools/verify_wave.sh <outdir> <tag> <jobs> id...   (worktree name = <tag>_<id>)
+# usage: tools/verify_wave.sh <outdir> <tag> <jobs> id...   (worktree name = <tag>_<id>); each worktree (with its build output) is removed
+# as soon as its seed is verified - a built worktree is ~6 GB
 out=$1; tag=$2; jobs=$3; shift 3
-printf '%s\n' "$@" | xargs -P $jobs -I{} sh -c "/verif/tools/verify_seed.sh $out {} ${tag}_{} > $out/{}/verify.log 2>&1; echo verified {}"
+printf '%s\n' "$@" | xargs -P $jobs -I{} sh -c "/verif/tools/verify_seed.sh $out {} ${tag}_{} > $out/{}/verify.log 2>&1; /verif/tools/rmwt.sh ${tag}_{}; echo verified {}"
